@@ -1695,7 +1695,11 @@ func (idx *MergeSetIndex) GetDeletedTSIDs() *uint64set.Set {
 	if idx.DeleteMergeSet() == nil {
 		return &uint64set.Set{}
 	}
-	return idx.DeleteMergeSet().deletedTSIDs.Load().(*uint64set.Set)
+	// the table's set is stored by LoadDeletedTSIDs; until then nothing is known to be deleted
+	if deleted, ok := idx.DeleteMergeSet().deletedTSIDs.Load().(*uint64set.Set); ok {
+		return deleted
+	}
+	return &uint64set.Set{}
 }
 
 func (idx *MergeSetIndex) RpName() string {
